@@ -288,7 +288,7 @@ fn shape_class(s: &FriShape, nq: usize) -> String {
 
 pub fn c06(ctx: &mut Ctx) {
     let scenario = "core.c06";
-    for p in ["fri.step1", "fri.step2", "fri.step3", "fri.step4", "fri.last-layer-constant", "fri.many-layers", "fri.single-query", "fri.two-queries-one-coset", "fri.whole-coset-queried", "fri.all-points-queried", "fri.sparse-polynomial", "fold-identity-cosets-checked"] {
+    for p in ["fri.step1", "fri.step2", "fri.step3", "fri.step4", "fri.last-layer-constant", "fri.many-layers", "fri.single-query", "fri.two-queries-one-coset", "fri.whole-coset-queried", "fri.all-points-queried", "fri.sparse-polynomial", "fri.zero-polynomial", "fri.zero-at-a-queried-point", "fri.queried-input-value-is-zero", "fold-identity-cosets-checked"] {
         ctx.stats.declare_probe(p);
     }
     let n_inst: u64 = if ctx.is_quick() { 4_000 } else { 40_000 };
@@ -307,7 +307,29 @@ pub fn c06(ctx: &mut Ctx) {
             _ => bound,
         };
         let mut coeffs = random_poly(&mut rng, deg_len);
-        match rng.below(6) {
+        let queries = draw_fri_queries(&mut rng, &shape, &mut ctx.stats);
+        match rng.below(8) {
+            6 => {
+                // the zero function: every queried and folded value is 0
+                ctx.stats.probe("fri.zero-polynomial");
+                for c in coeffs.iter_mut() {
+                    *c = Felt::ZERO;
+                }
+            }
+            7 if deg_len >= 2 => {
+                // a root at a queried point: r(x)·(x − x_q), same length
+                ctx.stats.probe("fri.zero-at-a-queried-point");
+                // (the reference prover's polynomial is in u = x/3: the point of index q is w^bitrev(q))
+                let q = queries[rng.usize_below(queries.len())];
+                let xq = models::subgroup_generator(shape.log_input).pow(models::bitrev(q, shape.log_input) as u128);
+                let r = coeffs[..deg_len - 1].to_vec();
+                let mut c2 = vec![Felt::ZERO; deg_len];
+                for (i, ri) in r.iter().enumerate() {
+                    c2[i + 1] += *ri;
+                    c2[i] -= *ri * xq;
+                }
+                coeffs = c2;
+            }
             0 => {
                 // sparse: only the lowest and highest coefficient
                 ctx.stats.probe("fri.sparse-polynomial");
@@ -327,8 +349,10 @@ pub fn c06(ctx: &mut Ctx) {
             }
             _ => {}
         }
-        let queries = draw_fri_queries(&mut rng, &shape, &mut ctx.stats);
         let inst = build_instance(&mut rng, shape.clone(), coeffs, None, queries.clone());
+        if inst.call.values.iter().any(|v| *v == Felt::ZERO) {
+            ctx.stats.probe("fri.queried-input-value-is-zero");
+        }
         ctx.stats.messages_delivered += (inst.call.roots.len() + inst.call.last_layer.len() + inst.call.values.len() + inst.call.layers.iter().map(|(l, a)| l.len() + a.len()).sum::<usize>()) as u64;
         let sc = shape_class(&shape, queries.len());
         // the configuration itself must be accepted by the real validation (every valid FRI
@@ -450,6 +474,35 @@ fn fri_faults(call: &FriCall, rng: &mut Rng, per_kind: usize) -> Vec<(String, Fr
         c.values[i] += Felt::ONE;
         out.push((format!("input-value[{i}]+1"), c));
     }
+    // sentinel values at a queried position, alone and together with the honest value slipped
+    // into the sibling leaves at the place where a verifier that mistook the sentinel for "not
+    // queried" would look for it. The verifier computed the value itself: it must reject.
+    {
+        let s1 = felt_to_u64(&call.config.fri_step_sizes.get(1).copied().unwrap_or(Felt::ZERO)).unwrap_or(0).min(8);
+        let qs: Vec<u64> = call.queries.iter().filter_map(felt_to_u64).collect();
+        if qs.len() == call.queries.len() && !call.layers.is_empty() {
+            for i in sample_idx(rng, call.values.len(), per_kind) {
+                // leaves consumed before position i: non-queried positions of earlier cosets and
+                // of the own coset below it
+                let (c_i, pos_i) = (qs[i] >> s1, qs[i] & ((1u64 << s1) - 1));
+                let mut cosets: Vec<u64> = qs.iter().map(|q| q >> s1).collect();
+                cosets.dedup();
+                let earlier: u64 = cosets.iter().filter(|c| **c < c_i).map(|c| (1u64 << s1) - qs.iter().filter(|q| (**q >> s1) == *c).count() as u64).sum();
+                let own = pos_i - qs.iter().filter(|q| (**q >> s1) == c_i && (**q & ((1u64 << s1) - 1)) < pos_i).count() as u64;
+                let at = ((earlier + own) as usize).min(call.layers[0].0.len());
+                for (nm, sentinel) in [("zero", Felt::ZERO), ("one", Felt::ONE)] {
+                    if call.values[i] == sentinel {
+                        continue;
+                    }
+                    let mut c = call.clone();
+                    c.values[i] = sentinel;
+                    out.push((format!("input-{nm}[{i}]"), c.clone()));
+                    c.layers[0].0.insert(at, call.values[i]);
+                    out.push((format!("input-{nm}+own-leaf[{i}]"), c));
+                }
+            }
+        }
+    }
     // NOTE: the decommitment `points` are computed by the verifier itself from the query indices
     // (queries_to_points); they are not prover messages and "evaluation point" in C07 means the
     // per-layer FRI challenge. A fault on `points` was tried and removed: with two queries in one
@@ -549,6 +602,14 @@ fn shrink_fri(seed: u64, kind: &str, n_friendly: u64) -> Option<(FriCall, String
         }
     }
     None
+}
+
+fn felt_to_u64(f: &Felt) -> Option<u64> {
+    let b = f.to_bytes_be();
+    if b[..24].iter().any(|x| *x != 0) {
+        return None;
+    }
+    Some(u64::from_be_bytes(b[24..].try_into().unwrap()))
 }
 
 fn kind_of(name: &str) -> String {
